@@ -13,7 +13,7 @@ import threading
 import z3
 from pyvc.spec import Target, Lemma, State, NULLLOG
 from pyvc.values import Obj, Extern, FlexDict, unflex, Native
-from pyvc.core import And, Or, Not, Implies, Iff, If, Eq, In, Sym, compare
+from pyvc.core import And, Or, Not, Implies, Iff, If, Eq, In, Sym, compare, Infeasible
 
 import experiment.model.codes as codes
 import experiment.runtime.workflow
@@ -445,6 +445,71 @@ class CanConsume(Target):
                 ('remembers-that-it-could-consume', Iff(st.this._consume, Or(st.before, res)))]
 
 
+FINALS = [codes.FINISHED_STATE, codes.FAILED_STATE, codes.SHUTDOWN_STATE]
+
+
+class InitialiseStage(Target):
+    """Controller.initialise.init_comps, run at EVERY stage boundary.  It may declare components finished only for the stages
+    that a restart skipped (indices below the stage the controller was started at); a component of a stage that actually ran
+    keeps the final state it reached -- a producer that ended shut down or failed must not be relabelled `finished`, or the
+    scheduler (which reads the producers' live state) would launch its consumers of later stages."""
+    prop = 'C01'
+    name = 'Controller.initialise.init_comps'
+    file = CT
+    qualname = 'Controller.initialise.init_comps'
+    compare_return = False
+    trusted = ["get_components_in_stage lists the components of a stage", "graph.ComponentIdentifier (C09)"]
+    assumptions = ["3 stages, one component each (final state finished / failed / shutdown, or still running for stages that have "
+                   "not started); the controller is entered for the first time (at stage 0, 1 or 2) or moves on to the next stage"]
+
+    def setup(self, c):
+        first_call = c.one_of('first_initialise', [True, False])
+        start = c.one_of('started_at_stage', [0, 1]) if not first_call else None
+        now = c.one_of('stage_being_initialised', [0, 1, 2])
+        if not first_call and now <= start:
+            raise Infeasible()
+        if first_call:
+            start_effective = now
+        else:
+            start_effective = start
+        comps = {}
+        for i in range(3):
+            ran = (i >= start_effective and i < now)
+            st_ = c.one_of('stage%d.component_state' % i, FINALS) if ran else codes.RUNNING_STATE
+            comps[i] = Obj('ComponentState:stage%d.c' % i, controllerState=None, state=st_, ran=ran,
+                           specification=Obj('spec', reference='stage%d.c' % i))
+        done = set('stage%d.c' % i for i in range(3) if comps[i].ran)
+        this = Obj('controller', comp_lock=threading.RLock(), log=NULLLOG, comp_done=done,
+                   currentStage=None if first_call else Obj('stage', index=now - 1), _starting_index=start, statusDatabase=None,
+                   get_components_in_stage=Extern('get_components_in_stage', lambda c, i, *a: [comps[i]]),
+                   workflowGraph=Obj('wg', _placeholders={}))
+        return State(args=[], free={'self': this, 'stage': Obj('stage', index=now), 'statusDatabase': 'db'}, this=this,
+                     comps=comps, start=start_effective, now=now, done_before=set(done))
+
+    def ensures(self, c, st, out):
+        if out.kind == 'raise':
+            return [('no-exception', False)]
+        ok_ran, ok_skipped, ok_future = True, True, True
+        for i, comp in st.comps.items():
+            ref = comp.specification.reference
+            if comp.ran:
+                if comp.controllerState is not None:
+                    ok_ran = False                         # its own final state (possibly failed / shutdown) stays
+            elif i < st.start:
+                if comp.controllerState != codes.FINISHED_STATE or ref not in st.this.comp_done:
+                    ok_skipped = False
+            else:
+                if comp.controllerState is not None or ref in st.this.comp_done:
+                    ok_future = False
+        return [('a-component-of-a-stage-that-ran-keeps-its-own-final-state', ok_ran),
+                ('components-of-stages-skipped-by-a-restart-count-as-finished', ok_skipped),
+                ('components-of-this-and-later-stages-are-not-touched', ok_future),
+                ('the-starting-stage-is-recorded-once', st.this._starting_index == st.start)]
+
+    def cross_compare(self, *a):
+        return []
+
+
 class DoneSetFrames(Lemma):
     """writes-frame: comp_done and comp_staged_in are only ever extended (.add) outside __init__, and only by functions
     that are under contract here or listed as startup/shutdown paths; handleError ends by setting stop_executing."""
@@ -499,5 +564,5 @@ class ReadyIsStable(Lemma):
                 ('final-producers-stay-final', Implies(And(rely, fin0), fin1))]
 
 
-TARGETS = [Schedule(), FinishedCheck(), FinalizeSubmit(), CanConsume()]
+TARGETS = [Schedule(), FinishedCheck(), FinalizeSubmit(), CanConsume(), InitialiseStage()]
 LEMMAS = [DoneSetFrames(), ReadyIsStable()]
